@@ -159,6 +159,12 @@ func sameExpr(a, b ssa.Value) bool {
 	case *ssa.Field:
 		y, ok := b.(*ssa.Field)
 		return ok && x.Field == y.Field && sameExpr(x.X, y.X)
+	case *ssa.IndexAddr:
+		y, ok := b.(*ssa.IndexAddr)
+		return ok && sameExpr(x.X, y.X) && sameExpr(x.Index, y.Index)
+	case *ssa.BinOp:
+		y, ok := b.(*ssa.BinOp)
+		return ok && x.Op == y.Op && sameExpr(x.X, y.X) && sameExpr(x.Y, y.Y)
 	case *ssa.Call:
 		y, ok := b.(*ssa.Call)
 		if !ok {
